@@ -1,4 +1,5 @@
 import OnetVerif.Model.C01
+import OnetVerif.Shapes
 /-! Property C01 — protocol messages reach exactly the addressed instance, exactly once.
 Statements are for arbitrary schedules (`List Act`): unboundedly many messages, arrival threads,
 tree requests/responses, local registrations and flushes, in any interleaving. -/
@@ -286,5 +287,51 @@ example : Quiescent (run {} [.arrive 1, .arrive 2, .thread 0, .thread 1, .thread
     (run {} [.arrive 1, .arrive 2, .thread 0, .thread 1, .thread 0, .thread 0, .thread 0, .thread 0,
       .thread 0, .thread 1, .thread 1, .thread 1, .respond, .flush, .thread 2, .thread 3]).delivered = [1, 2] := by
   decide
+
+/-! ### the code regions the model stands for
+Regenerated from /repo's source on every run (`harness/cmd/astfacts` → `OnetVerif/Shapes.lean`): the
+calls that matter for synchronisation and data flow, the lock regions and (for decision logic) the
+conditions, in source order.  A re-ordering, a dropped call or a changed condition breaks these
+obligations even when no sampled input or schedule shows a difference; the check then searches for
+a failing input. -/
+theorem c01_shape_Overlay_TransmitMsg :
+    Shapes.overlay_Overlay_TransmitMsg =
+   ["treeStorage.getAndRefresh", "verifPoint:tm.miss", "o.requestTree", "verifPoint:tm.found",
+     "transmitMux.Lock", "defer:transmitMux.Unlock", "instancesLock.Lock", "To.ID", "To.ID",
+     "o.cleanTreeStorage", "instancesLock.Unlock", "o.TreeNodeFromTree",
+     "o.newTreeNodeInstanceFromToken", "treeStorage.Set", "To.ID", "o.getConfig",
+     "serviceManager.newProtocol", "instancesLock.Lock", "o.nodeDelete", "instancesLock.Unlock",
+     "go{", "defer{", "tni.Token", "ServiceFactory.Name", "}", "pi.Dispatch", "tni.Token",
+     "ServiceFactory.Name", "}", "o.RegisterProtocolInstance", "pi.ProcessProtocolMsg"] := rfl
+
+theorem c01_shape_Overlay_requestTree :
+    Shapes.overlay_Overlay_requestTree =
+   ["o.savePendingMsg", "verifPoint:rt.parked", "treeStorage.Get", "if:(tree!=nil)",
+     "o.checkPendingMessages", "return:nil", "verifPoint:rt.recheck-miss", "io.Wrap",
+     "if:(err!=nil)", "return:xerrors.Errorf(\"\",err)",
+     "if:o.treeStorage.IsRegistered(onetMsg.To.TreeID)", "return:nil",
+     "verifPoint:rt.unregistered", "treeStorage.Register", "verifPoint:rt.registered",
+     "server.Send", "if:(err!=nil)", "treeStorage.Unregister", "return:xerrors.Errorf(\"\",err)",
+     "return:nil"] := rfl
+
+theorem c01_shape_Overlay_checkPendingMessages :
+    Shapes.overlay_Overlay_checkPendingMessages =
+   ["go{", "verifPoint:cpm.start", "pendingMsgLock.Lock", "ID.Equal", "pendingMsgLock.Unlock",
+     "o.TransmitMsg", "verifPoint:cpm.done", "}"] := rfl
+
+theorem c01_shape_Overlay_savePendingMsg :
+    Shapes.overlay_Overlay_savePendingMsg =
+   ["pendingMsgLock.Lock", "pendingMsgLock.Unlock"] := rfl
+
+theorem c01_shape_Overlay_RegisterTree :
+    Shapes.overlay_Overlay_RegisterTree =
+   ["treeStorage.Set", "o.checkPendingMessages"] := rfl
+
+theorem c01_shape_Overlay_handleSendTree :
+    Shapes.overlay_Overlay_handleSendTree =
+   ["if:((rt.TreeMarshal==nil)||rt.TreeMarshal.TreeID.IsNil())", "return:",
+     "if:(rt.Roster==nil)", "return:", "if:!o.treeStorage.IsRequested(rt.TreeMarshal.TreeID)",
+     "return:", "TreeMarshal.MakeTree", "if:(err!=nil)", "return:", "o.RegisterTree"] := rfl
+
 
 end C01
